@@ -19,6 +19,10 @@
      fill_indices        `result.loc[idx] = result.loc[idx].fillna(v)` with unique row labels = for i in idx: if result[i]
        (Model/MissingValuePyDict)  is null: result[i] = v    (modelled by this definition)
 
+   Columns are untyped here (cells are rationals; strings are order-preserving integers as in Spec/Builtins.v): mean /
+   median of a STRING column that has a null raise in pandas (as in python_dict.py); such requests are outside the domain of
+   the specification and NOT modelled (the same restriction as Model/MissingValuePyDict.v).
+
    ELEMENT-WISE, modelled by definition: Series.isna().any() (`has_null`), `group[col]` = the cells of the group's rows
    (`take`), Series.copy().
 
